@@ -13,7 +13,7 @@ OUT = SCR + '/verif-out'
 # (name, file, old, new, [properties expected to catch it])
 M = [
  ('newly_press-forward-scan', 'src/key_transforms.rs', 'for mapping in mappings.iter().rev() {', 'for mapping in mappings.iter() {', ['C03']),
- ('drop-release_action_mappings-in-add', 'src/key_transforms.rs', '    events.append(&mut release_action_mappings(state));\n    events.append(&mut release_absorbed_keys(state, Some(*new_key)));', '    events.append(&mut release_absorbed_keys(state, Some(*new_key)));', ['C04']),
+ ('drop-release_action_mappings-in-add', 'src/key_transforms.rs', '  if is_action_mapping(m) {\n    events.append(&mut release_action_mappings(state));\n  }', '  if false && is_action_mapping(m) {\n    events.append(&mut release_action_mappings(state));\n  }', ['C04']),
  ('remove_mapping-no-still_used', 'src/key_transforms.rs', '        if active_mappings[j].to.contains(&k) {\n          still_used = true;', '        if false && active_mappings[j].to.contains(&k) {\n          still_used = true;', ['C05']),
  ('remove_mapping-no-still_shadowed', 'src/key_transforms.rs', '            if active_mappings[j].from.contains(&k) {\n              still_shadowed = true;', '            if false && active_mappings[j].from.contains(&k) {\n              still_shadowed = true;', ['C02']),
  ('newly_release-skip-passthrough-release-of-modifiers', 'src/key_transforms.rs', '    if state.pass_through_keys[i] == k {\n      events.push(Released(k));\n      state.pass_through_keys.remove(i);\n      break;\n    }\n  }\n  \n  state.input_pressed_keys.retain(|&old_key| {', '    if state.pass_through_keys[i] == k {\n      if is_action_key(&k) || state.active_mappings.is_empty() { events.push(Released(k)); }\n      state.pass_through_keys.remove(i);\n      break;\n    }\n  }\n  \n  state.input_pressed_keys.retain(|&old_key| {', ['C01']),
